@@ -66,7 +66,7 @@ func genCase(prop string) func(t *rapid.T) Case {
 			case "setctx":
 				op.Ctx = rapid.SampledFrom([]string{"new", "new", "same", "nil"}).Draw(t, "ctx")
 			case "finish":
-				op.Out = rapid.SampledFrom([]string{"val", "val", "val", "valnorel", "valsame", "valzero", "err", "errrel", "errcanceled"}).Draw(t, "out")
+				op.Out = rapid.SampledFrom([]string{"val", "val", "val", "valnorel", "valsame", "valzero", "valerr", "err", "errrel", "errcanceled"}).Draw(t, "out")
 				op.Pick = rapid.IntRange(0, 3).Draw(t, "pick")
 			case "finishcb":
 				op.Out = rapid.SampledFrom([]string{"nil", "nil", "err"}).Draw(t, "out")
@@ -303,6 +303,12 @@ func body(c *sched.Ctl, cs Case, v *ev.Verdict) {
 			vr.id = 0
 			vr.hasRel = true
 			zeroValue = true
+		case "valerr":
+			// a partial result: a value together with an error (and a release function)
+			nextVal++
+			vr.id = nextVal
+			vr.err = fmt.Errorf("resolve-error-%d", ci.id)
+			vr.hasRel = true
 		case "err", "errrel":
 			vr.err = fmt.Errorf("resolve-error-%d", ci.id)
 			vr.hasRel = out == "errrel"
